@@ -32,7 +32,8 @@ EPS = 1e-6
 def c19_order(p1: int, p2: int, p3: int, w1: int, w2: int, n1: int, n2: int, au: int, d: int) -> bool:
     """
     pre: 0 <= w1 <= 2 and 0 <= w2 <= 2 and 1 <= n1 <= 3 and 1 <= n2 <= 2 and 0 <= au <= 3
-    pre: rt.S.get('full', False) or (w1 != 1 and w2 == 1 and n1 <= 2 and n2 == 1 and au <= 1)
+    pre: rt.S.get('full', False) or rt.S.get('pace', False) or (w1 != 1 and w2 == 1 and n1 <= 2 and n2 == 1 and au <= 1)
+    pre: not rt.S.get('pace', False) or (n1 == 3 and w1 >= 1 and n2 == 1 and au == 0)
     pre: 0 <= d <= rt.S.get('dmax', 0)
     post: _
     """
@@ -183,7 +184,7 @@ CANARIES = {
     'startup_without_the_slot': {'apply': _canary_unsync_start, 'conds': ['c19_order'], 'shards': [{'trig': 'boot', 'gw': 0.3}],
                                  'what': 'Arbiter.start calls _start_watchers directly (periodic checks interleave)'},
     'warmup_deducted_cumulatively': {'apply': _canary_cumulative_delay, 'conds': ['c19_order'],
-                                     'shards': [{'trig': 'boot', 'gw': 0, 'hookcost': 0.15}],
+                                     'shards': [{'trig': 'boot', 'gw': 0, 'hookcost': 0.15, 'pace': True}],
                                      'what': 'spawn_processes shrinks the delay across iterations'},
 }
 
@@ -197,7 +198,7 @@ def plan(tier):
             sh.append({'trig': trig, 'gw': 0.3, 'full': True})
             sh.append({'trig': trig, 'gw': 0, 'full': True})
             sh.append({'trig': trig, 'gw': 0.3, 'dmax': 20})
-    sh.append({'trig': 'boot', 'gw': 0, 'hookcost': 0.15})
+    sh.append({'trig': 'boot', 'gw': 0, 'hookcost': 0.15, 'pace': True})
     if q:
         sh.append({'trig': 'boot', 'gw': 0.3, 'dmax': 12})
     return [
